@@ -1,13 +1,40 @@
-ASSUMPTIONS = ['fail-fast semantics as documented: a push/pop may fail under contention; only quiescent success conditions are exact']
-OUTSIDE = ('more threads / operations than stated; capacities other than 2 (power of two) and 3 (exact); counter wrap-around of the 64-bit head/tail; '
-           'weak-memory reorderings (sequential consistency is assumed for the atomics); payload types other than int32 / lifetime-tracked int')
+TECHNIQUE = ('bounded symbolic execution of LLVM IR lowered to C: CBMC/SAT (cadical); concurrent instances: sequentialised '
+             'step machine with symbolic round-robin scheduler over all atomic operations (engine cbmc-seq); '
+             'sequential history instances against a reference FIFO (engine cbmc)')
+ASSUMPTIONS = ['fail-fast semantics as documented: a push/pop may fail under contention; only quiescent success conditions are exact',
+               'sequential consistency for the atomics (interleaving semantics at atomic-operation granularity; payload '
+               'construction is an additional interleaving point in the lifetime-tracked instances)']
+OUTSIDE = ('more threads / operations / scheduler rounds than stated per instance; capacities other than 2, 4 (power of two) and 3 (exact); '
+           'counter wrap-around of the 64-bit head/tail; weak-memory reorderings; payload types other than int32 / lifetime-tracked int')
+
+
+def conc(name, cap, pow2, steps, nthreads, tiers, bounds, unwind=3, timeout=1500, **d):
+    defs = {'VF_CAP': cap, 'VF_POW2': pow2, 'VF_ELEM': 0, 'VF_PUSH': 1, 'VF_POP': 0, 'VF_A': 2, 'VF_B': 1, 'VF_C': 2,
+            'VF_NCONS': 1, 'VF_BATCH': 0, 'VF_P3': 0, 'VF_PRE': 1, 'VF_DRAIN': 3}
+    defs.update(d)
+    return {'name': name, 'src': 'mpmc_conc.cpp', 'engine': 'cbmc-seq', 'steps': steps, 'spin_loops': True, 'defs': defs,
+            'unwind': unwind, 'unwindset': {}, 'nthreads': nthreads, 'timeout': timeout, 'tiers': tiers, 'bounds': bounds}
+
+
 INSTANCES = [
-    {'name': 'conc_cap2', 'src': 'mpmc_conc.cpp', 'engine': 'cbmc-seq', 'steps': 4, 'spin_loops': True, 'defs': {'VF_CAP': 2, 'VF_POW2': 'true', 'VF_BATCH': 0},
-     'unwind': 7, 'nthreads': 4, 'timeout': 1500,
-     'bounds': 'capacity 2; producer A: 2 pushes, producer B: 1 push, consumer: 2 pops (kinds symbolic), then quiescent drain by main'},
-    {'name': 'conc_cap3_batch', 'src': 'mpmc_conc.cpp', 'engine': 'cbmc-seq', 'steps': 8, 'spin_loops': True, 'defs': {'VF_CAP': 3, 'VF_POW2': 'false', 'VF_BATCH': 1},
-     'unwind': 7, 'nthreads': 4, 'timeout': 1500,
-     'bounds': 'capacity 3 (exact, modulo indexing); producer A: try_push_batch(2), producer B: 1 push, consumer: 2 pops, then quiescent drain'},
+    # push kinds per tag t: (VF_PUSH + t) % 3 (0 try_push(T&&), 1 try_emplace, 2 try_push(const T&));
+    # pop kinds of the consumer's j-th pop: (VF_POP + j) % 3 (0 try_pop(T&), 1 try_pop_into, 2 try_pop())
+    conc('conc_cap2_a', 2, 'true', 4, 4, ['quick', 'thorough'],
+         'capacity 2 (pow2); symbolic start offset 0..1 and optional pre-filled element; producer A: try_emplace, try_push(const T&); '
+         'producer B: try_emplace; consumer: try_pop(T&), try_pop_into; 4 scheduler rounds; then quiescent push probe + drain by main',
+         VF_PUSH=0, VF_POP=0),
+    conc('conc_cap2_b', 2, 'true', 4, 4, ['quick', 'thorough'],
+         'capacity 2 (pow2); symbolic start offset and pre-fill; producer A: try_push(const T&), try_push(T&&); producer B: try_push(const T&); '
+         'consumer: try_pop() (OpResult), try_pop(T&); 4 scheduler rounds; quiescent probe + drain',
+         VF_PUSH=1, VF_POP=2),
+    conc('conc_cap3_batch', 3, 'false', 4, 4, ['quick', 'thorough'],
+         'capacity 3 (exact, modulo indexing); symbolic start offset 0..2 and pre-fill; producer A: try_push_batch(2 items); producer B: '
+         'try_push(T&&); consumer: try_pop_into, try_pop(); 4 scheduler rounds; quiescent probe + drain',
+         VF_PUSH=2, VF_POP=1, VF_BATCH=1, VF_DRAIN=4, unwind=4),
+    conc('conc_cap2_elem', 2, 'true', 4, 4, ['quick', 'thorough'],
+         'capacity 2; lifetime-tracked payload with scheduling points inside the payload constructors; producer A: 2 pushes, producer B: 1 push, '
+         'consumer: 2 pops; symbolic number of elements left to ~MpmcRingBuffer; 4 scheduler rounds',
+         VF_ELEM=1, VF_PUSH=0, VF_POP=2, VF_PRE=0),
     {'name': 'seq_cap2', 'src': 'mpmc_seq.cpp', 'engine': 'cbmc', 'defs': {'VF_CAP': 2, 'VF_POW2': 'true', 'VF_OPS': 4},
      'unwind': 7, 'timeout': 1500, 'bounds': 'capacity 2; 4 symbolic operations from 6 kinds against a reference FIFO; lifetime-tracked payload',
      'thorough': {'defs': {'VF_CAP': 2, 'VF_POW2': 'true', 'VF_OPS': 6}, 'unwind': 8}},
